@@ -76,21 +76,7 @@ static ldb_mergeiter_t *vp_mi;
 static int vp_cur;
 static int vp_want_status;
 
-/* VP_OS<k>: set of operations allowed at step k (bit i = VP_OP_* i; 31 = all).
-   Excluded operations are removed from the program of that step. */
-#ifndef VP_OS0
-#define VP_OS0 31
-#endif
-#ifndef VP_OS1
-#define VP_OS1 31
-#endif
-#ifndef VP_OS2
-#define VP_OS2 31
-#endif
-#ifndef VP_OS3
-#define VP_OS3 31
-#endif
-static const int vp_os[8] = { VP_OS0, VP_OS1, VP_OS2, VP_OS3, 31, 31, 31, 31 };
+#include "C07/ops.h"
 
 #if VP_MODE == 0
 
@@ -240,12 +226,18 @@ harness(void) {
     }
 
     if (vp_cur >= 0) {
+#if VP_LAST_SEEK
       if (op == VP_OP_SEEK) VP_WITNESS("seek-valid");
-#if VP_K >= 3 && VP_N0 + VP_N1 >= 3
+#endif
+#if VP_K >= 3 && VP_N0 + VP_N1 >= 3 && VP_LAST_NEXT && VP_PREV_PREV
       if (op == VP_OP_NEXT && prev_op == VP_OP_PREV) VP_WITNESS("prev-then-next-valid");
+#endif
+#if VP_K >= 3 && VP_N0 + VP_N1 >= 3 && VP_LAST_PREV && VP_PREV_NEXT
       if (op == VP_OP_PREV && prev_op == VP_OP_NEXT) VP_WITNESS("next-then-prev-valid");
 #endif
+#if VP_LAST_LAST
       if (op == VP_OP_LAST) VP_WITNESS("last-valid");
+#endif
     } else {
       VP_WITNESS("ends-invalid");
     }
